@@ -355,3 +355,45 @@ def run_cmd(cmd, cwd=None, timeout=1800, env=None, stdin_data=None):
     p = subprocess.run(cmd, cwd=cwd, env=e, input=stdin_data, stdout=subprocess.PIPE, stderr=subprocess.PIPE,
                        timeout=timeout, text=True)
     return p.returncode, p.stdout, p.stderr
+
+
+# ----------------------------------------------------------------------------- independent canonicity scan
+def is_canonical(nodes):
+    """valid + reduced + library layout (DFS post-order, high child first, root last, nothing unreachable)"""
+    if not is_wf(nodes):
+        return False, "not a valid ordered diagram"
+    n = len(nodes)
+    if n == 1:
+        return True, None
+    seen = set()
+    for p in range(2, n):
+        v, l, h = nodes[p]
+        if l == h:
+            return False, "redundant node %d" % p
+        if nodes[p] in seen:
+            return False, "duplicate node %d" % p
+        seen.add(nodes[p])
+    if n == 2:
+        return True, None
+    # structural order check
+    lim = 2
+    stack = [(n - 1, 0)]
+    # iterative version of chk: visit high, then low, then the node itself must be the next index
+    sys.setrecursionlimit(max(10000, 4 * n))
+
+    def chk(p, lim):
+        if p < lim:
+            return lim
+        v, l, h = nodes[p]
+        l1 = chk(h, lim)
+        if l1 is None:
+            return None
+        l2 = chk(l, l1)
+        if l2 is None or p != l2:
+            return None
+        return l2 + 1
+
+    res = chk(n - 1, 2)
+    if res != n:
+        return False, "node order is not the DFS post-order (high first) of the reachable nodes"
+    return True, None
